@@ -244,6 +244,9 @@ def check(ctx):
     validator_loop(ctx)
     policy_table(ctx)
     set_type_validate(ctx)
+    from rules import independence
+    independence.r28_functions(ctx, [(SV + ':schema_validator', {}), ('dataflows.processors.set_type:set_type.transformer', {}),
+                                     ('dataflows.processors.validate:validate.rows_validator.func', {})])
     matchers.r9_anchored(ctx, {'dataflows.processors.set_type'}, floor=1)
     funcs = [ctx.repo.cls('dataflows.processors.set_type:set_type').methods['process_datapackage']]
     stream.r7_guard_dominance(ctx, funcs)
